@@ -219,7 +219,7 @@ def standin_resolve_after_edits(tier, seed):
                 break
             hist.append(desc)
             cases += 1
-            rebuilt = cirq.Circuit(c.moments)
+            rebuilt = cirq.Circuit(c.moments, tags=c.tags)
             why = None
             try:
                 r1, r2 = cirq.resolve_parameters(c, res), cirq.resolve_parameters(rebuilt, res)
